@@ -125,6 +125,41 @@ func envSharing(c *vh.Ctx) {
 		c.HitN("share:env-executions", 2*len(idents))
 		c.Eval(ep.src, true)
 		for _, f := range bad {
+			// A difference that shows ANOTHER execution's identity is cross-talk: report at once. Any other difference
+			// (system() returning -1, missing child output) can be os/exec's 250 ms WaitDelay expiring on a loaded
+			// machine: re-run that identity three more times next to other concurrent executions and report it only
+			// if it never matches.
+			foreign := false
+			for _, id := range idents {
+				if "ID="+id.id != f.Case.(c19Case).Input && strings.Contains(f.Got, id.id) {
+					foreign = true
+				}
+			}
+			if !foreign {
+				var me envIdent
+				var want string
+				for i, id := range idents {
+					if "ID="+id.id == f.Case.(c19Case).Input {
+						me, want = id, ref[i]
+					}
+				}
+				matched := false
+				for try := 0; try < 3 && !matched; try++ {
+					var wg2 sync.WaitGroup
+					for k := 0; k < 3 && k < len(idents); k++ {
+						wg2.Add(1)
+						go func(k int) { defer wg2.Done(); runEnv(pr.prog, dir, idents[k]) }(k)
+					}
+					if runEnv(pr.prog, dir, me) == want {
+						matched = true
+					}
+					wg2.Wait()
+				}
+				if matched {
+					c.Hit("share:env-retry-matched (load-sensitive difference, not reported)")
+					continue
+				}
+			}
 			c.Fail(f)
 		}
 		if after := progDump(pr.prog) + "\x00" + disasm(pr.prog); after != before {
